@@ -169,7 +169,7 @@ pub fn c15_variants(tier: &str, words: &[u32]) -> Vec<Variant> {
             let me = id(A, 1).with(Renew::Next);
             let cfg = Cfg { max_tx: mt, max_packet: packet + if var { 3 } else { 0 }, fanout: 2, notify_down: true, ..Cfg::default() };
             let mut s = CoreSpec::new(&format!("c15-{}-mt{mt}-pkt{packet}", if var { "var" } else { "fix" }), me, cfg);
-            s.codec = FixCodec { var };
+            s.codec = FixCodec { var, ..FixCodec::default() };
             s.words = words.to_vec();
             s.mons.c15 = true;
             s.alpha = Alpha {
@@ -224,6 +224,33 @@ pub fn c15_variants(tier: &str, words: &[u32]) -> Vec<Variant> {
             sb.ev(Ev::Apply(vec![al(id(B, 0)), al(id(C, 1))], true));
         }));
         let l = if th { lim(6, 6, 6_000_000, 600.0) } else { lim(4, 4, 800_000, 60.0) };
+        out.push(Variant { spec: s, lim: l });
+    }
+    // A backlog larger than any "at least N" shortcut (seven updates), a
+    // header made of LONG identities and updates about SHORT ones
+    // (variable-length encoding), packets that hold five to seven updates:
+    // whatever Foca estimates from the header, no update that fits is left out
+    for packet in [40usize, 44, 48, 52] {
+        let me = id(A, 2).with(Renew::Next);
+        // fan-out 7: gossip() goes to every member, no RNG draw (a draw per
+        // candidate would multiply the branches by the menu size each)
+        let cfg = Cfg { max_tx: 2, max_packet: packet, fanout: 7, notify_down: false, ..Cfg::default() };
+        let mut s = CoreSpec::new(&format!("c15-long-header-short-updates-pkt{packet}"), me, cfg);
+        s.codec = FixCodec { var: true, ..FixCodec::default() };
+        s.words = words.to_vec();
+        s.mons.c15 = true;
+        s.alpha = Alpha {
+            srcs: vec![(id(B, 0), 0, true), (id(C, 2), 0, false)],
+            kinds: vec![Kind::Ping, Kind::PingReq(id(D, 0)), Kind::IndirectPing(id(D, 0)), Kind::IndirectAck(id(D, 0))],
+            payload_kinds: vec![Kind::Ping],
+            payloads: vec![vec![]],
+            api: vec![Ev::Gossip],
+            ..Alpha::default()
+        };
+        s.seed_hists.push(seed(&s, |sb| {
+            sb.ev(Ev::Apply(vec![al(id(B, 0)), al(id(C, 0)), al(id(D, 0)), al(id(4, 0)), al(id(5, 0)), al(id(6, 0)), al(id(7, 0))], true));
+        }));
+        let l = if th { lim(4, 4, 2_000_000, 300.0) } else { lim(2, 2, 300_000, 60.0) };
         out.push(Variant { spec: s, lim: l });
     }
     out
@@ -315,7 +342,10 @@ pub fn c16_variants(tier: &str, words: &[u32]) -> Vec<Variant> {
         api.extend([Ev::Broadcast, Ev::Gossip, Ev::Announce(id(B, 0)), Ev::AddBroadcast(vec![]), Ev::AddBroadcast(vec![0xFF, 1])]);
         s.alpha = Alpha {
             srcs: vec![(id(B, 0), 0, true), (id(C, 0), 0, false)],
-            kinds: vec![Kind::Gossip, Kind::Ping, Kind::Announce, Kind::Broadcast],
+            // relay requests make the instance write to somebody it may not
+            // hold as a member at all (C may be Down, or unknown): the
+            // handler's predicate applies to every recipient
+            kinds: vec![Kind::Gossip, Kind::Ping, Kind::Announce, Kind::Broadcast, Kind::PingReq(id(C, 0)), Kind::IndirectAck(id(C, 0))],
             payload_kinds: vec![Kind::Gossip],
             payloads: vec![vec![], vec![mm(id(C, 0), 0, State::Down)], vec![mm(id(D, 0), 0, State::Alive)]],
             items: vec![item(0, 3, 4), item(1, 1, 3), item(2, 1, 5)],
@@ -398,7 +428,7 @@ pub fn c07_variants(tier: &str, words: &[u32]) -> Vec<Variant> {
         let me = id(A, 1).with(Renew::Next);
         let cfg = Cfg { max_packet: packet, max_tx: mt, fanout: 2, notify_down: true, gossip: Some((200, 2)), announce_down: Some((500, 1)), ..Cfg::default() };
         let mut s = CoreSpec::new(&format!("c07-{}-pkt{packet}-mt{mt}", if var { "var" } else { "fix" }), me, cfg);
-        s.codec = FixCodec { var };
+        s.codec = FixCodec { var, ..FixCodec::default() };
         s.words = words.to_vec();
         s.mons.c07 = true;
         let mut a = Alpha {
